@@ -503,13 +503,22 @@ let c19 h =
   let hyp = Array.for_all (fun (_, _, wm) -> wm <= eff h.maxop (60_000 * ms)) h.watchers in
   let calls = calls_of h in
   let shifty = Array.exists (fun c -> c.cost <> c.costd) calls in
-  let held = Array.exists (fun c -> c.hold) calls in
   let a = per_tick h ~interval:(eff h.audit (10_000 * ms))
       ~is_ev:(function ("auditskip" | "auditpass" | "auditfail") :: _ -> true | _ -> false) ~name:"c19" ~need_limiter:false in
-  let b = if hyp && not shifty then
+  let b = if hyp && not shifty then begin
+      (* an Enqueue call is "in its count window" from the call to its return: the only way an honest,
+         healthy Batcher can be found with a non-zero figure by the audit (finding D7) *)
+      let open_calls = Hashtbl.create 8 and k = ref 0 in
       List.filter_map (fun ln -> match ln.src, ln.w with
-          | "L", "auditfail" :: _ -> Some (Printf.sprintf "c19:audit-fail%s gen=%d t=%d an audit failed on a Batcher whose costs are honest" (if held then "-in-count-window" else "") h.gen ln.t)
+          | "D", "act" :: "enq" :: _ -> Hashtbl.replace open_calls !k (); incr k; None
+          | _, ["enqret"; cc; _] -> Hashtbl.remove open_calls (ios cc); None
+          | "L", "auditfail" :: _ ->
+              let n = Hashtbl.length open_calls in
+              Some (Printf.sprintf "c19:audit-fail%s gen=%d t=%d an audit failed on a Batcher whose costs are honest%s"
+                      (if n > 0 then "-in-count-window" else "") h.gen ln.t
+                      (if n > 0 then Printf.sprintf " (%d Enqueue call(s) between count and insert)" n else ""))
           | _ -> None) h.lines
+    end
     else [] in
   a @ b
 
